@@ -76,8 +76,10 @@ Mutate(node, op, out) ==
   ELSE IF node.t = "d" THEN
          IF op.op = "setitem" /\ ~Raised(out)
            THEN [node EXCEPT !.m = [k \in DOMAIN out.val.m |-> IF k = op.k THEN FreshTree(out.val.m[k]) ELSE node.m[k]]]
-         ELSE IF op.op \in {"delitem", "pop"} /\ ~Raised(out)
+         ELSE IF op.op \in {"delitem", "pop", "popitem"} /\ ~Raised(out)
            THEN [node EXCEPT !.m = [k \in DOMAIN out.val.m |-> node.m[k]]]
+         ELSE IF op.op = "setdefault" /\ ~Raised(out)       \* a new object only when the key was absent
+           THEN [node EXCEPT !.m = [k \in DOMAIN out.val.m |-> IF k \in DOMAIN node.m THEN node.m[k] ELSE FreshTree(out.val.m[k])]]
          ELSE Remake(node, op, out)
   ELSE LET n == Len(node.s) IN
          IF op.op = "setitem" /\ ~Raised(out)
@@ -89,6 +91,14 @@ Mutate(node, op, out) ==
            THEN LET j == Clamp(op.i, n) + 1
                 IN [node EXCEPT !.s = [q \in 1..(n + 1) |-> IF q < j THEN node.s[q] ELSE IF q = j THEN FreshTree(op.x) ELSE node.s[q - 1]]]
          ELSE IF op.op = "append" /\ ~Raised(out) THEN [node EXCEPT !.s = Append(node.s, FreshTree(op.x))]
+         ELSE IF op.op \in {"extend", "iadd"} /\ ~Raised(out)
+           THEN [node EXCEPT !.s = node.s \o [q \in 1..Len(op.x.s) |-> FreshTree(op.x.s[q])]]
+         ELSE IF op.op = "reverse" THEN [node EXCEPT !.s = [q \in 1..n |-> node.s[n + 1 - q]]]
+         ELSE IF op.op = "remove" /\ ~Raised(out)           \* the FIRST equal element goes, the others shift
+           THEN LET Without(j) == [q \in 1..(n - 1) |-> IF q < j THEN node.s[q] ELSE node.s[q + 1]]
+                    cand == {j \in 1..n : PlainOf([node EXCEPT !.s = Without(j)]) = out.val}
+                    j == CHOOSE c \in cand : \A d \in cand : c <= d
+                IN [node EXCEPT !.s = Without(j)]
          ELSE Remake(node, op, out)
 
 (***************************************************************************)
